@@ -158,16 +158,6 @@ func hangProne(c progCase) bool {
 			if rec && k.Value.Import != nil {
 				n++ // `***: @x` brings a whole file into every match
 			}
-			// a spread substitution inside a vars block can refer to the variable being
-			// defined: unbounded self-inclusion (KNOWN_FINDINGS C07 crash:self-referential-spread)
-			if k.Key != nil && len(k.Key.Path) == 1 && strings.EqualFold(k.Key.Path[0].Unbox().ScalarString(), "vars") && k.Value.Map != nil {
-				d2ast.Walk(k.Value.Map, func(x d2ast.Node) bool {
-					if sub, ok := x.(*d2ast.Substitution); ok && sub.Spread {
-						n++
-					}
-					return true
-				})
-			}
 			if !rec || k.Value.Map == nil {
 				return true
 			}
